@@ -44,6 +44,7 @@ class PartialRef:
 
 EXTERNAL = {
     "functools.partial": PartialRef,
+    "functools.cmp_to_key": __import__("functools").cmp_to_key,
     "itertools.product": lambda *a, **k: list(itertools.product(*a, **k)),
     "itertools.chain": lambda *a: list(itertools.chain(*a)),
     "itertools.islice": lambda *a: list(itertools.islice(*a)),
@@ -244,6 +245,7 @@ class Interp:
         self.native = tuple(native) + (ExitStackStub, ConfigStub, PoolStub, ExtFunc)
         self.config = ConfigStub()
         self.follow = set(follow)
+        self.memo_calls: Dict[Any, Any] = {}
         self.stubs = dict(stubs or {})
         self.stubs.setdefault("contextlib.ExitStack", lambda it_, ev, c, a, k: ExitStackStub(it_, ev))
         for name in ("cobra.util.process_pool.ProcessPool", "cobra.util.ProcessPool"):
@@ -446,6 +448,19 @@ class Interp:
         raise Unknown("call of a value that is not a function of the package")
 
     def call(self, fn: FuncInfo, args: Sequence[Any] = (), kwargs: Optional[Dict[str, Any]] = None, selfobj=None, outer_env: Optional[Dict[str, Any]] = None, defaults: Optional[Dict[str, Any]] = None):
+        if fn.decorators and any(d.split("(")[0].split(".")[-1] in ("lru_cache", "cache") for d in fn.decorators):
+            # functools' caches hand the *same object* back for equal arguments, for the lifetime of the process
+            key = (fn.qualname, tuple(args), tuple(sorted((kwargs or {}).items())), id(selfobj) if selfobj is not None else None)
+            try:
+                hash(key)
+            except TypeError:
+                raise EvalRaise("TypeError", fn.node)
+            if key not in self.memo_calls:
+                self.memo_calls[key] = self._call(fn, args, kwargs, selfobj, outer_env, defaults)
+            return self.memo_calls[key]
+        return self._call(fn, args, kwargs, selfobj, outer_env, defaults)
+
+    def _call(self, fn: FuncInfo, args: Sequence[Any] = (), kwargs: Optional[Dict[str, Any]] = None, selfobj=None, outer_env: Optional[Dict[str, Any]] = None, defaults: Optional[Dict[str, Any]] = None):
         self.depth += 1
         try:
             if self.depth > self.max_depth:
@@ -583,6 +598,9 @@ class Interp:
                     if sym.qualname in self.stubs:
                         return self.stubs[sym.qualname](self, ev, c, args, kwargs)
                     if sym.qualname in self.follow:
+                        if sym.cls is not None and sym.parent is None and not sym.is_static and not sym.is_classmethod and isinstance(f, ast.Attribute) and args:
+                            # Class.method(obj, ...): the method called through its class with an explicit receiver
+                            return self.call(sym, args[1:], kwargs, selfobj=args[0])
                         return self.call(sym, args, kwargs)
                     raise Unknown(f"call to {sym.qualname} is not modelled")
                 if isinstance(sym, ClassInfo) and f"{sym.unit.modname}.{sym.name}" in self.stubs:
